@@ -22,7 +22,7 @@ RULE = ("(a) exhaustive: all call sequences of length <= 3 over 6 actions x cate
         "(broker, category, budget, sequence); trivial = none")
 ASSUMPTIONS = ["Redis and RabbitMQ are wire-level fakes", "broker calls are counted by harness-side recorders at the broker boundary (top level only)"]
 EVAL_COUNTER = "calls_judged"
-REQUIRED = ["calls_judged", "refusals_checked", "second_actions_checked", "eager_sequences", "callback_orders_checked", "eager_in_dependency", "sequences_with_refused_retry"]
+REQUIRED = ["calls_judged", "refusals_checked", "second_actions_checked", "eager_sequences", "callback_orders_checked", "eager_in_dependency", "sequences_with_refused_retry", "category_by_plain_name"]
 CASE_TIMEOUT = 120
 
 ACTIONS = ("ack", "nack", "reject", "reschedule", "retry", "force_retry")
@@ -81,7 +81,10 @@ async def api_sequence(loop, kind, cat, budget, seq, out, stats, fps):
             await mb.nack(key)
             await c0.finish()
         q = Queue("q", _connection=conn)
-        agen = q.get_messages(category=MessageCategory(cat))
+        # the category is a str enum: its plain name is accepted wherever the member is (every second sequence uses it)
+        plain_name = sum(map(len, seq)) % 2 == 1
+        stats["category_by_plain_name" if plain_name else "category_by_enum_member"] += 1
+        agen = q.get_messages(category=cat if plain_name else MessageCategory(cat))
         msg = await asyncio.wait_for(agen.__anext__(), 10)
         used = False
         ctxb = f"{cat}/{budget}"
